@@ -38,7 +38,7 @@ import sys
 import time
 from typing import Any, Dict, List, Optional, Tuple
 
-from harness.lib import coqbuild, ostrace, powerloss, c16_driver
+from harness.lib import coqbuild, ostrace, powerloss, c16_driver, c16_worker
 
 LEVEL = "proof"
 THEOREMS = ["C16_durable_prefix", "C16_acked_durable", "C16_each_publish", "C16_publish_data_same", "C16_disciplined_safe"]
@@ -105,8 +105,10 @@ class Case:
     """One scenario run: raw trace, canonical trace, and the model's `ops` rebuilt from the files."""
 
     def __init__(self, steps: List[Any], mode: str, raw: List[Dict[str, Any]], results: List[Dict[str, Any]], root: str,
-                 reader: powerloss.Reader):
+                 reader: powerloss.Reader, fault: Optional[Dict[str, Any]] = None, faultlog: Optional[List[Dict[str, Any]]] = None,
+                 error: Optional[str] = None):
         self.steps, self.mode, self.raw, self.results, self.root = steps, mode, raw, results, os.path.realpath(root)
+        self.fault, self.faultlog, self.error = fault, faultlog or [], error
         self.reader = reader
         self.namer = ostrace.Namer()
         self.can = ostrace.canonicalise(raw, root, self.namer, self.tokens_for)
@@ -311,7 +313,8 @@ def report_violations(ctx, case: Case, viol: List[Dict[str, Any]], mutation: Opt
         c2 = make_case(ctx, steps, case.mode, mutation)
         return bool(powerloss.sweep(c2.raw, c2.root, c2.reader)[0])
     steps = case.steps
-    if mutation is None and len(case.steps) > 2:
+    fault = case.fault
+    if mutation is None and fault is None and len(case.steps) > 2:
         steps = shrink_steps(ctx, case.steps, case.mode, mutation, still_fails)
         if steps != case.steps:
             c2 = make_case(ctx, steps, case.mode, mutation)
@@ -320,31 +323,137 @@ def report_violations(ctx, case: Case, viol: List[Dict[str, Any]], mutation: Opt
                 case, v = c2, min(v2, key=pick)
     prob = v["problems"][0]
     key = f"pointer-outruns-data:{prob.get('problem', '?').split(' ')[0]}:{powerloss.kind_of(prob.get('file', '')) if prob.get('file') else 'pointer'}"
+    fdesc = None
+    if fault is not None:
+        fdesc = next((f for f in case.faultlog if f.get("injected")), None)
+        if fdesc is not None:
+            key += f":after-failed-{fdesc['call']}-of-{powerloss.kind_of(_final_guess(fdesc['path']))}"
     trace_txt = powerloss.describe_trace(case.raw, case.root)
     n = v["prefix"] or 0
     what = (f"power loss after call #{n} ({v.get('last_call')}) under outcome {v['outcome']}: the surviving pointer references "
             f"{prob.get('file')} which is {prob.get('problem')} ({prob.get('detail', '')}) -- scenario {steps}, tracer {case.mode}")
-    ctx.violation(key, what, {"steps": steps, "mode": case.mode, "mutation": mutation, "prefix": n, "outcome": v["outcome"],
+    if fdesc is not None:
+        what += (f"; injected fault: durability call #{fdesc['i']} ({fdesc['call']} of {fdesc['path']}, in {fdesc['module']}) raised OSError(EIO) "
+                 f"and the library went on to acknowledge: steps ok = {[r.get('ok') for r in case.results]}")
+    ctx.violation(key, what, {"steps": steps, "mode": case.mode, "mutation": mutation, "fault": fault, "fault_call": fdesc,
+                              "prefix": n, "outcome": v["outcome"],
                               "schedule": v.get("schedule"), "problems": v["problems"],
                               "trace_up_to_crash": trace_txt[max(0, n - 12):n], "violating_prefixes": len(viol)})
+
+
+def _final_guess(rel: str) -> str:
+    """table-relative path of the file a temp name belongs to (for the violation key only)."""
+    d, b = os.path.dirname(rel), os.path.basename(rel)
+    if b.startswith("<temp>"):
+        b = b[len("<temp>"):].lstrip(".")
+    elif b.startswith(".tmp.") and b.count(".") >= 3:
+        b = b.split(".", 3)[3]
+    elif b.startswith("tmp") and b.endswith(".parquet"):
+        b = "auto_x.parquet"
+    return os.path.join(d, b) if d else b
+
+
+def report_unbounded(ctx, case: Case) -> None:
+    """A library operation that hangs, exhausts memory or kills the worker is a reported violation with its input."""
+    fdesc = next((f for f in case.faultlog if f.get("injected")), None)
+    ctx.violation("operation-not-bounded:" + case.error.split(":")[0].replace(" ", "-"),
+                  f"scenario {case.steps} (tracer {case.mode}, fault {case.fault}) did not complete: {case.error}",
+                  {"steps": case.steps, "mode": case.mode, "mutation": getattr(case, "mutation", None), "fault": case.fault,
+                   "fault_call": fdesc, "error": case.error, "steps_completed": [r.get("ok") for r in case.results]})
 
 
 _SEQ = [0]
 
 
-def make_case(ctx, steps: List[Any], mode: str, mutation: Optional[str] = None) -> Case:
-    _SEQ[0] += 1
-    root = os.path.join(ctx.scratch, f"t{_SEQ[0]}")
-    if mode == "strace":
-        raw, results = run_strace(ctx, root, steps, mutation)
-    else:
-        raw, results = run_inproc(root, steps, mutation)
-    case = Case(steps, mode, raw, results, root, READER)
-    shutil.rmtree(root, ignore_errors=True)
-    return case
+def make_cases(ctx, specs: List[Dict[str, Any]]) -> List[Case]:
+    """Run scenario specs {"steps", "mode", "mutation"?, "fault"?} and return their Cases, in order.
+    In-process runs go through bounded worker subprocesses (harness/lib/c16_worker.py): wall-clock alarm,
+    address-space limit, the parent kills a worker without progress; strace runs have their own timeout.
+    A run that hangs / dies yields a Case with .error set (and whatever trace was recorded)."""
+    jobs, out = [], {}
+    for k, sp in enumerate(specs):
+        _SEQ[0] += 1
+        root = os.path.join(ctx.scratch, f"t{_SEQ[0]}")
+        sp = dict(sp, root=root, id=f"j{_SEQ[0]}")
+        specs[k] = sp
+        if sp.get("mode", "inproc") == "strace":
+            try:
+                raw, results = run_strace(ctx, root, sp["steps"], sp.get("mutation"))
+                out[sp["id"]] = {"events": raw, "results": results, "faultlog": []}
+            except Exception as e:  # timeout / driver crash
+                out[sp["id"]] = {"error": f"{type(e).__name__}: {e}"[:500]}
+            shutil.rmtree(root, ignore_errors=True)
+        else:
+            jobs.append({"id": sp["id"], "root": root, "steps": sp["steps"], "mutation": sp.get("mutation"), "fault": sp.get("fault")})
+    out.update(c16_worker.run_jobs(ctx.scratch, jobs, nworkers=int(os.environ.get("C16_WORKERS", "8"))))
+    cases = []
+    for sp in specs:
+        r = out.get(sp["id"], {"error": "no result"})
+        results = r.get("results")
+        if results is None:
+            results = [{"step": st, "ok": False, "data_files": [], "error": "not completed"} for st in sp["steps"]]
+        cases.append(Case(sp["steps"], sp.get("mode", "inproc"), r.get("events", []), results, sp["root"], READER,
+                          fault=sp.get("fault"), faultlog=r.get("faultlog"), error=r.get("error")))
+        cases[-1].mutation = sp.get("mutation")
+    return cases
+
+
+def make_case(ctx, steps: List[Any], mode: str, mutation: Optional[str] = None, fault: Optional[Dict[str, Any]] = None) -> Case:
+    return make_cases(ctx, [{"steps": steps, "mode": mode, "mutation": mutation, "fault": fault}])[0]
 
 
 READER = powerloss.Reader()
+
+
+# ------------------------------------------------------------------------------------------ faults
+FAULT_SCENARIOS: List[List[Any]] = [
+    [["create"], ["append", 3], ["delete_append", 0, 2], ["append", 1]],
+    [["create"], ["multi", [2, 1]], ["expire"], ["abort", [1]], ["delete_snapshot", 0], ["append", 2]],
+    [["create"], ["append", 2], ["append_expire", 1], ["delete", 0], ["reopen"], ["append", 1]],
+]
+
+
+def is_dir_sync_fault(f: Dict[str, Any]) -> bool:
+    """open / fsync of a DIRECTORY: the library tolerates its failure by design ("directory fsync not
+    supported - acceptable"; DESIGN.md C16 'Not in the model'), so these faults are evaluated but only counted."""
+    return bool(f.get("isdir")) and f["call"] in ("open", "fsync")
+
+
+def oracle_faults(ctx, scenarios: List[List[Any]]) -> List[Case]:
+    probes = make_cases(ctx, [{"steps": s, "mode": "inproc"} for s in scenarios])
+    specs = []
+    for pc in probes:
+        if pc.error:
+            report_unbounded(ctx, pc)
+            continue
+        for f in pc.faultlog:
+            specs.append({"steps": pc.steps, "mode": "inproc", "fault": {"index": f["i"]}, "_expect": f})
+    fcases = make_cases(ctx, specs)
+    stats = {"scenarios": len(probes), "durability_calls": len(specs), "by_call": {}, "aborted_cleanly": 0, "swallowed_and_acknowledged": 0,
+             "dir_sync_faults_tolerated_by_design": 0, "dir_sync_faults_with_violating_prefixes": 0, "not_injected": 0}
+    for sp, fc in zip(specs, fcases):
+        if fc.error:
+            report_unbounded(ctx, fc)
+            continue
+        inj = next((f for f in fc.faultlog if f.get("injected")), None)
+        if inj is None:
+            stats["not_injected"] += 1
+            continue
+        k = f"{inj['call']}:{'dir' if inj['isdir'] else powerloss.kind_of(_final_guess(inj['path']))}"
+        stats["by_call"][k] = stats["by_call"].get(k, 0) + 1
+        all_ok = all(r.get("ok") for r in fc.results)
+        stats["swallowed_and_acknowledged" if all_ok else "aborted_cleanly"] += 1
+        viol, evals = powerloss.sweep(fc.raw, fc.root, fc.reader, outcomes=["drop_all", "entries_early"])
+        ctx.count(evals, ("fault", json.dumps(fc.steps), inj["i"]))
+        for a in ack_check(fc):
+            viol.append({"prefix": a["prefix"], "outcome": "drop_all", "problems": [dict(a, problem="acknowledged commit not durable")]})
+        if is_dir_sync_fault(inj):
+            stats["dir_sync_faults_tolerated_by_design"] += 1
+            stats["dir_sync_faults_with_violating_prefixes"] += 1 if viol else 0
+            continue
+        report_violations(ctx, fc, viol, None)
+    ctx.stats["fault_injection"] = stats
+    return fcases
 
 
 # ------------------------------------------------------------------------------------------ scenarios
@@ -514,7 +623,8 @@ def corr_schedules(ctx, cases: List[Case], per_case: int) -> None:
 def run(ctx) -> None:
     ctx.rule = ("scenarios = fixed list covering create / append / multi-append / delete_files / expire / delete_snapshot + seeded "
                 "random histories; a case is distinct by (tracer, step list); oracle evaluations = (prefix, outcome) pairs of the "
-                "observed raw traces judged by the independent reader")
+                "observed raw traces judged by the independent reader; fault class = one OSError(EIO) at each durability call "
+                "(temp creation / write / fsync descriptor / fsync / rename) of the fault scenarios, one run per call")
     ctx.trusted_base += [
         "translator/gen_durable.py (ast walk of write_file / DataFileWriter.open+close -> call sequence; golden order of the commit steps)",
         "power-loss model of coq/Model/Durable.v: fsync(file) persists that inode's content, fsync(dir) persists that directory's "
@@ -538,18 +648,22 @@ def run(ctx) -> None:
     strace_scen = BASE_SCENARIOS[1:3] if quick else BASE_SCENARIOS + scen[len(BASE_SCENARIOS):len(BASE_SCENARIOS) + 10]
 
     t0 = time.time()
-    cases: List[Case] = []
-    for s in scen:
-        cases.append(make_case(ctx, s, "inproc"))
+    cases = make_cases(ctx, [{"steps": s, "mode": "inproc"} for s in scen])
     ctx.stats["inproc_scenarios"] = len(cases)
     ctx.stats["inproc_run_s"] = round(time.time() - t0, 1)
     t0 = time.time()
-    scases: List[Case] = []
-    for s in strace_scen:
-        scases.append(make_case(ctx, s, "strace"))
+    scases = make_cases(ctx, [{"steps": s, "mode": "strace"} for s in strace_scen])
     ctx.stats["strace_scenarios"] = len(scases)
     ctx.stats["strace_run_s"] = round(time.time() - t0, 1)
+    for c in cases + scases:
+        if c.error:
+            report_unbounded(ctx, c)
+    cases = [c for c in cases if not c.error]
+    scases = [c for c in scases if not c.error]
     allc = cases + scases
+    if len(allc) < 2:
+        ctx.proof_problems.append("no scenario completed")
+        return
     ctx.stats["raw_events"] = sum(len(c.raw) for c in allc)
     ctx.stats["canonical_calls"] = sum(len(c.calls) for c in allc)
     ctx.stats["commits_modelled"] = sum(1 for c in allc for o in c.ops if "abort" not in o)
@@ -568,6 +682,13 @@ def run(ctx) -> None:
         viol = oracle_case(ctx, c, nsched=2 if quick else 6)
         report_violations(ctx, c, viol, None)
     ctx.stats["oracle_s"] = round(time.time() - t0, 1)
+
+    # ---- fault class: OSError at EVERY durability call (temp creation, write, descriptor for fsync, fsync,
+    #      rename) of every operation type, one fault per run; the power-loss oracle judges every prefix of
+    #      what the library did next and whether what it acknowledged is durable
+    t0 = time.time()
+    fault_cases = oracle_faults(ctx, FAULT_SCENARIOS[:2] if quick else FAULT_SCENARIOS + scen[len(BASE_SCENARIOS):len(BASE_SCENARIOS) + 6])
+    ctx.stats["faults_s"] = round(time.time() - t0, 1)
     ctx.stats["reader_parses"] = READER.parses
 
     # ---- sensitivity self-test of the oracle (runtime mutations of the library; never reported as violations)
@@ -619,7 +740,13 @@ def replay(ctx, payload) -> int:
     if "steps" not in case:
         print("replay: payload kind not replayable directly; re-run ./bin/check C16 thorough")
         return 2
-    c = make_case(ctx, case["steps"], case.get("mode", "inproc"), case.get("mutation"))
+    c = make_case(ctx, case["steps"], case.get("mode", "inproc"), case.get("mutation"), case.get("fault"))
+    if c.error:
+        print(f"replay: STILL FAILS: the scenario does not complete: {c.error}")
+        return 1
+    if "error" in case:
+        print("replay: the scenario completes now")
+        return 0
     sched = {int(k): [tuple(b) for b in v] for k, v in (case.get("schedule") or {}).items()} or None
     viol, _ = powerloss.sweep(c.raw, c.root, c.reader, schedule=sched)
     viol += [{"prefix": a["prefix"], "outcome": "drop_all", "problems": [dict(a, problem="acknowledged commit not durable")]} for a in ack_check(c)]
